@@ -6,6 +6,7 @@ import (
 	_ "verifharness/mon/c02"
 	_ "verifharness/mon/c05"
 	_ "verifharness/mon/c06"
+	_ "verifharness/mon/c10"
 	_ "verifharness/mon/c11"
 	_ "verifharness/mon/c14"
 	_ "verifharness/mon/c15"
